@@ -6,4 +6,4 @@ import (
 	"verif/internal/harness"
 )
 
-func TestProps(t *testing.T) { harness.Main(t, "C19", Seq, Conc) }
+func TestProps(t *testing.T) { harness.Main(t, "C19", Seq, Conc, Twin) }
